@@ -311,6 +311,10 @@ def store(
             dask.compute(arrays, **kwargs)
             return None
         else:
+            if not load_stored:
+                # the "blocks" of these arrays are the targets themselves
+                for a in arrays:
+                    a._blocks_are_targets = True
             stored_persisted = persist(*arrays, **kwargs)
             arrays = []
             if load_stored:
